@@ -129,7 +129,7 @@ def alphabet(n, bfs):
     else:
         ev.append(['it', 0])
     ev += [['s', 1, 3, None], ['s', None, None, 2], ['s', None, None, -1], ['s', -2, None, None],
-           ['s', n, None, None], ['o', n], ['o', -n - 1], ['list']]
+           ['s', n, None, None], ['s', 1, -1, None], ['s', -1, 0, -1], ['o', n], ['o', -n - 1], ['list']]
     return ev
 
 
@@ -270,10 +270,10 @@ class C12(Check):
                   'number+name concatenations, equal numbers on adjacent residues (of different and of equal names), wrapping '
                   'numbers, with/without '
                   'velocities) up to 3 (quick) / 5 (thorough) residues, and three 400-residue layouts, is loaded by the '
-                  'real code; every access history over a 19-event alphabet (index, negative index, slices, two live '
+                  'real code; every access history over a 21-event alphabet (index, negative index, slices, two live '
                   'iterators, len, list, out-of-range) up to depth 4 (quick) / 5 (thorough; 4 on 5-residue files) modulo the cursor key, and every ordered pair '
                   'of events inside a long history, is executed and each result compared with the k-th reference '
-                  'residue; a coverage statement over that finite space')
+                  'residue; on every small file additionally every index and a 10 x 10 x 6 slice cube in isolation; a coverage statement over that finite space')
     level_note = ('trusted: the minimal reference reader in this module (cross-checked against the generator\'s own record '
                   'list on every file), io.StringIO seek/tell. The dedup key is sound because every access path seeks '
                   'before reading and iterators keep only a progress counter; if a change breaks that, the transition '
@@ -291,9 +291,9 @@ class C12(Check):
         mod = 16 if thorough else 6
         self.bounds = {'file_residues_max': lmax, 'kinds': list(KORDER), 'numberings': list(NUMBERINGS),
                        'velocities': [False, True], 'bfs_depth': depth,
-                       'bfs_depth_for_files_of_5_residues': 4, 'events': 19, 'live_iterators_max': 2,
+                       'bfs_depth_for_files_of_5_residues': 4, 'events': 21, 'live_iterators_max': 2,
                        'big_files': ['p2 (W1,AB)x200', 'p3 (W3,ION,W1)x133+1 width 10', 'block 300xW3 + 100 singles'],
-                       'big_file_history': 'de Bruijn order 2 over 19 events (362 events) + BFS depth 2',
+                       'big_file_history': 'de Bruijn order 2 over 21 events (442 events) + BFS depth 2',
                        'de_bruijn_on_small_files': True}
         u = []
         for num in NUMBERINGS:
@@ -364,6 +364,30 @@ class C12(Check):
                 sig, det = 'tiling/box-differs-from-file', np.asarray(s.box_matrix).tolist()
             elif s.comment_line.rstrip('\n') != title:
                 sig, det = 'tiling/title-differs-from-file', repr(s.comment_line)
+            elif len(ref) <= 12:
+                # random access in isolation: every index and the whole slice cube against list semantics
+                n = len(ref)
+                for k in range(-n, n):
+                    if norm_res(s[k]) != ref[k]:
+                        sig, det = 'tiling/index-differs-from-iteration', f'[{k}] of {n}'
+                        break
+                vals = []
+                for v in (None, -n - 1, -2, -1, 0, 1, 2, n - 1, n, n + 1):
+                    if v not in vals:
+                        vals.append(v)
+                for a in (vals if sig is None else ()):
+                    for b in vals:
+                        for c in (None, 1, 2, -1, -2, n):
+                            if c == 0:
+                                continue
+                            R.add('isolated_slices', 1)
+                            if [norm_res(r) for r in s[a:b:c]] != ref[a:b:c]:
+                                sig, det = 'tiling/slice-differs-from-list-semantics', f'[{a}:{b}:{c}] of {n}'
+                                break
+                        if sig:
+                            break
+                    if sig:
+                        break
         except Exception as exc:
             sig, det = 'tiling/exception', f'{type(exc).__name__}: {exc}'
         R.case(desc, nontrivial=len(ref) >= 2, outcome='tiling', cls='tiling/' + fcls)
